@@ -29,8 +29,8 @@ func c13ReloadJob(tier string) Job {
 		n := 0
 		for i := range menu {
 			for j := range menu {
-				for _, mode := range []string{"pool-changed", "pool-added-in-front"} {
-					if mode == "pool-changed" && i == j {
+				for _, mode := range []string{"pool-changed", "pool-added-in-front", "pool-changed/same-identity"} {
+					if mode != "pool-added-in-front" && i == j {
 						continue
 					}
 					if time.Now().After(deadline) {
@@ -42,16 +42,19 @@ func c13ReloadJob(tier string) Job {
 					s1.Octet = 21
 					var cfgB []string
 					p1, ip1, _, _, _ := s1.pool()
-					if mode == "pool-changed" {
+					if mode != "pool-added-in-front" {
 						s2.Octet = 21
 					} else {
 						s2.Octet = 20
 					}
 					p2, ip2, gw2, ml2, vl2 := s2.pool()
-					if mode == "pool-changed" {
+					if mode != "pool-added-in-front" {
 						cfgB = []string{p2}
 					} else {
 						cfgB = []string{p2, p1}
+					}
+					if mode == "pool-changed/same-identity" && ip1 != ip2 {
+						continue // the identity keeps its address only if the new settings still contain it
 					}
 					desc := fmt.Sprintf("%s: configuration [%s], pod a-0 bound, then configuration [%s], pod a-1 requesting %s", mode, p1, strings.Join(cfgB, ","), ip2)
 					w := world.New(world.Config{Pools: "[" + p1 + "]", Nodes: nodesN1})
@@ -61,6 +64,9 @@ func c13ReloadJob(tier string) Job {
 					}
 					w.SetStatefulSet("ns", "a", 2)
 					first := world.PodSpec{Name: "a-0", NS: "ns", OwnerKind: "StatefulSet", OwnerName: "a", Ranges: `[["` + ip1 + `"]]`}
+					if mode == "pool-changed/same-identity" {
+						first.Policy = "never" // the address stays with the identity a-0 across the pod's re-creation
+					}
 					w.CreatePod(first)
 					r.evals++
 					if _, err := w.Schedule(first.Key()); err != nil {
@@ -72,7 +78,7 @@ func c13ReloadJob(tier string) Job {
 						r.violate("C13", name, "setup", "configuration-rejected", "ConfigurePool", desc+": reload: "+err.Error(), []string{desc})
 						continue
 					}
-					if mode == "pool-changed" && ip1 == ip2 {
+					if mode != "pool-added-in-front" && ip1 == ip2 {
 						// the first pod keeps the (still configured) address; the second pod is its next incarnation
 						w.DeletePod(first.Key())
 						for len(w.Pending) > 0 {
@@ -80,6 +86,9 @@ func c13ReloadJob(tier string) Job {
 						}
 					}
 					second := world.PodSpec{Name: "a-1", NS: "ns", OwnerKind: "StatefulSet", OwnerName: "a", Ranges: `[["` + ip2 + `"]]`}
+					if mode == "pool-changed/same-identity" {
+						second = first // the next incarnation of a-0 takes the address reserved for it
+					}
 					w.CreatePod(second)
 					nb := len(w.Bindings)
 					if _, err := w.Schedule(second.Key()); err != nil || len(w.Bindings) != nb+1 {
@@ -88,8 +97,8 @@ func c13ReloadJob(tier string) Job {
 					}
 					b := w.Bindings[len(w.Bindings)-1]
 					h.reset()
-					h.putPod(cniPod{Name: "a-1", Networks: "a", ExtendedArg: b.Anno})
-					code, body := h.request("ADD", fmt.Sprintf("r%d", n), "a-1", "eth0")
+					h.putPod(cniPod{Name: second.Name, Networks: "a", ExtendedArg: b.Anno})
+					code, body := h.request("ADD", fmt.Sprintf("r%d", n), second.Name, "eth0")
 					inv := h.invocations()
 					if code != 200 || len(inv) != 1 {
 						r.violate("C13", name, "daemon", "daemon-add-failed", "ADD", fmt.Sprintf("%s: HTTP %d %s, %d invocations", desc, code, body, len(inv)), []string{desc})
